@@ -117,6 +117,67 @@ var regConfig = &model.Config{Registered: map[reflect.Type]func(reflect.Value) v
 	},
 }}
 
+// pointer-shaped types (a map; a struct whose only field is a pointer): their
+// reflect.Value holds the value itself in its data word, not its address
+type regC map[string]string
+type regD struct{ P *int }
+
+func foldRegC(in *regC, v structform.ExtVisitor) error {
+	if in == nil {
+		return v.OnNil()
+	}
+	return v.OnInt(len(*in) + 100)
+}
+
+func foldRegD(in *regD, v structform.ExtVisitor) error {
+	if in == nil {
+		return v.OnNil()
+	}
+	if in.P == nil {
+		return v.OnString("D<nil>")
+	}
+	return v.OnString(fmt.Sprintf("D<%d>", *in.P))
+}
+
+func modelRegD(v reflect.Value) val.V {
+	p := v.Field(0)
+	if p.IsNil() {
+		return val.VStr("D<nil>")
+	}
+	return val.VStr(fmt.Sprintf("D<%d>", p.Elem().Int()))
+}
+
+func init() {
+	ptrOr := func(f func(reflect.Value) val.V) func(reflect.Value) val.V {
+		return func(v reflect.Value) val.V {
+			if v.IsNil() {
+				return val.VNil()
+			}
+			return f(v.Elem())
+		}
+	}
+	mc := func(v reflect.Value) val.V { return val.VInt(int64(v.Len() + 100)) }
+	regConfig.Registered[reflect.TypeOf(regC{})] = mc
+	regConfig.Registered[reflect.TypeOf(&regC{})] = ptrOr(mc)
+	regConfig.Registered[reflect.TypeOf(regD{})] = modelRegD
+	regConfig.Registered[reflect.TypeOf(&regD{})] = ptrOr(modelRegD)
+}
+
+type withReg2 struct {
+	C  regC
+	PC *regC
+	D  regD
+	PD *regD
+	LC []regC
+	LD []regD
+	MC map[string]regC
+	MD map[string]regD
+	I  interface{}
+	S  struct{ C regC }
+	T  struct{ D regD }
+	Z  int
+}
+
 // c12Check folds v with the real folder and compares with the model.
 // It returns the monitor for the contract check of C09.
 func foldAgainstModel(c *run.C, t reflect.Type, v reflect.Value, cfg *model.Config, basicSink bool, opts ...gotype.FoldOption) (*mon.Monitor, bool) {
@@ -312,7 +373,23 @@ type withRegInline struct {
 func c12Registered(c *run.C) {
 	r := c.R
 	var t reflect.Type
-	switch c.Idx % 5 {
+	switch c.Idx % 13 {
+	case 5:
+		t = reflect.TypeOf(withReg2{})
+	case 6:
+		t = reflect.TypeOf(regC{})
+	case 7:
+		t = reflect.TypeOf(regD{})
+	case 8:
+		t = reflect.TypeOf(struct{ C regC }{})
+	case 9:
+		t = reflect.TypeOf(map[string]regC{})
+	case 10:
+		t = reflect.TypeOf([]regD{})
+	case 11:
+		t = reflect.TypeOf([]interface{}{})
+	case 12:
+		t = reflect.TypeOf(map[string]*regD{})
 	case 0:
 		t = reflect.TypeOf(withReg{})
 	case 1:
@@ -324,21 +401,165 @@ func c12Registered(c *run.C) {
 	default:
 		t = reflect.TypeOf(map[string]regA{})
 	}
-	vg := &gen.ValueGen{R: r, O: gen.GoValueOpts{IfaceTypes: []reflect.Type{reflect.TypeOf(regA{}), reflect.TypeOf(&regB{}), reflect.TypeOf(0)}}}
+	vg := &gen.ValueGen{R: r, O: gen.GoValueOpts{IfaceTypes: []reflect.Type{reflect.TypeOf(regA{}), reflect.TypeOf(&regB{}), reflect.TypeOf(0),
+		reflect.TypeOf(regC{}), reflect.TypeOf(regD{}), reflect.TypeOf(&regC{}), reflect.TypeOf(&regD{}), reflect.TypeOf(struct{ C regC }{}), reflect.TypeOf(map[string]regD{})}}}
 	v := vg.Value(t, 0)
 	tags := typeTags(t)
-	if c.Idx%5 == 3 {
+	if c.Idx%13 == 3 {
 		tags = append(tags, "registered-folder-inline")
 	}
 	c.Begin(goCase{Type: t.String(), Value: valueString(v), How: "registered", Tags: tags})
 	for _, tg := range tags {
 		c.Tag(tg)
 	}
-	if _, ok := foldAgainstModel(c, t, v, regConfig, false, gotype.Folders(foldRegA, foldRegB)); !ok {
+	if c.Idx%29 == 7 {
+		// an invalid option must not make Fold "succeed" without describing the value
+		m := mon.NewMonitor()
+		var err error
+		if !c.Guard("gotype.Fold.invalid-option", func() { err = gotype.Fold(v.Interface(), m, gotype.Folders(foldRegA, 123)) }) {
+			return
+		}
+		if err == nil {
+			c.Violationf("mismatch", "fold:invalid-option-accepted", "Fold with an invalid Folders option (123 is no function) returned nil after %d events: the value is not described and no error is reported\ntype=%s", m.NEvents, t)
+			return
+		}
+		c.Observe("invalid_options_refused", 1)
+	}
+	if _, ok := foldAgainstModel(c, t, v, regConfig, false, gotype.Folders(foldRegA, foldRegB, foldRegC, foldRegD)); !ok {
 		return
 	}
 	c.Observe("registered_folds_equal_to_model", 1)
 	c.Nontrivial(gen.Mix(121, gen.HashString(valueString(v))))
+}
+
+// folders registered for BUILTIN primitive types (float64, string): the value
+// of every position of that type is what the folder emits.
+type withBuiltinReg struct {
+	F  float64
+	PF *float64
+	S  string
+	A  [2]float64
+	I  []interface{}
+	MI map[string]interface{}
+	L  []float64
+	M  map[string]float64
+	LS []string
+	Z  int
+}
+
+func foldBuiltinF64(in *float64, v structform.ExtVisitor) error {
+	if in == nil {
+		return v.OnNil()
+	}
+	return v.OnString("F64")
+}
+
+func foldBuiltinStr(in *string, v structform.ExtVisitor) error {
+	if in == nil {
+		return v.OnNil()
+	}
+	return v.OnInt(len(*in))
+}
+
+var builtinRegConfig = func() *model.Config {
+	ptrOr := func(f func(reflect.Value) val.V) func(reflect.Value) val.V {
+		return func(v reflect.Value) val.V {
+			if v.IsNil() {
+				return val.VNil()
+			}
+			return f(v.Elem())
+		}
+	}
+	f64 := func(reflect.Value) val.V { return val.VStr("F64") }
+	str := func(v reflect.Value) val.V { return val.VInt(int64(v.Len())) }
+	return &model.Config{Registered: map[reflect.Type]func(reflect.Value) val.V{
+		reflect.TypeOf(float64(0)):      f64,
+		reflect.TypeOf((*float64)(nil)): ptrOr(f64),
+		reflect.TypeOf(""):              str,
+		reflect.TypeOf((*string)(nil)):  ptrOr(str),
+	}}
+}()
+
+// typedContainerOfBuiltin reports whether v holds a non-empty []float64,
+// map[string]float64 or []string (statically typed container whose element
+// type has a registered folder).
+func typedContainerOfBuiltin(v reflect.Value, depth int) bool {
+	if depth > 8 {
+		return false
+	}
+	switch v.Kind() {
+	case reflect.Ptr, reflect.Interface:
+		return !v.IsNil() && typedContainerOfBuiltin(v.Elem(), depth+1)
+	case reflect.Slice, reflect.Map:
+		ek := v.Type().Elem().Kind()
+		if (ek == reflect.Float64 || ek == reflect.String) && v.Type().Elem().PkgPath() == "" {
+			return v.Len() > 0
+		}
+		if v.Kind() == reflect.Map {
+			for _, k := range v.MapKeys() {
+				if typedContainerOfBuiltin(v.MapIndex(k), depth+1) {
+					return true
+				}
+			}
+			return false
+		}
+		for i := 0; i < v.Len(); i++ {
+			if typedContainerOfBuiltin(v.Index(i), depth+1) {
+				return true
+			}
+		}
+	case reflect.Array:
+		for i := 0; i < v.Len(); i++ {
+			if typedContainerOfBuiltin(v.Index(i), depth+1) {
+				return true
+			}
+		}
+	case reflect.Struct:
+		for i := 0; i < v.NumField(); i++ {
+			if typedContainerOfBuiltin(v.Field(i), depth+1) {
+				return true
+			}
+		}
+	}
+	return false
+}
+
+func c12RegisteredBuiltin(c *run.C) {
+	r := c.R
+	var t reflect.Type
+	switch c.Idx % 6 {
+	case 0:
+		t = reflect.TypeOf(withBuiltinReg{})
+	case 1:
+		t = reflect.TypeOf([]float64{})
+	case 2:
+		t = reflect.TypeOf(map[string]float64{})
+	case 3:
+		t = reflect.TypeOf(float64(0))
+	case 4:
+		t = reflect.TypeOf([]interface{}{})
+	default:
+		t = reflect.TypeOf(struct {
+			A float64
+			B *string
+			C [1]string
+		}{})
+	}
+	vg := &gen.ValueGen{R: r, O: gen.GoValueOpts{IfaceTypes: []reflect.Type{reflect.TypeOf(float64(0)), reflect.TypeOf(""), reflect.TypeOf(0), reflect.TypeOf([]float64{}), reflect.TypeOf(map[string]interface{}{})}}}
+	v := vg.Value(t, 0)
+	tags := typeTags(t)
+	if typedContainerOfBuiltin(v, 0) {
+		tags = append(tags, "registered-builtin-in-typed-container")
+	}
+	c.Begin(goCase{Type: t.String(), Value: valueString(v), How: "registered-builtin", Tags: tags})
+	for _, tg := range tags {
+		c.Tag(tg)
+	}
+	if _, ok := foldAgainstModel(c, t, v, builtinRegConfig, false, gotype.Folders(foldBuiltinF64, foldBuiltinStr)); !ok {
+		return
+	}
+	c.Observe("registered_builtin_folds_equal_to_model", 1)
+	c.Nontrivial(gen.Mix(123, gen.HashString(valueString(v))))
 }
 
 // zoo types with implemented folders, IsZeroers, embedded fields.
@@ -378,6 +599,7 @@ var c12Suites = []*run.Suite{
 	{Name: "generated", N: tierN(150000, 5000000), Case: c12Generated, Require: []string{"folds_equal_to_model", "type:tag-omitempty", "type:tag-inline", "type:tag-omit", "type:tag-name", "type:ptr", "type:interface", "type:map", "type:slice"}},
 	{Name: "sweep", N: tierN(len(c12FieldKinds)*len(c12Tags)*4*3, len(c12FieldKinds)*len(c12Tags)*4*3*10), Case: c12Sweep, Require: []string{"sweep_folds_equal_to_model"}},
 	{Name: "registered", N: tierN(5000, 100000), Case: c12Registered, Require: []string{"registered_folds_equal_to_model"}},
+	{Name: "registered-builtin", N: tierN(3000, 60000), Case: c12RegisteredBuiltin, Require: []string{"registered_builtin_folds_equal_to_model"}},
 	{Name: "zoo", N: tierN(20000, 400000), Case: c12Zoo, Require: []string{"zoo_folds_equal_to_model"}},
 }
 
